@@ -58,6 +58,10 @@ seq_t dtw_warping_paths{{ suffix }}{{ suffix2 }}(seq_t *wps,
     {%- endif %}
 
     DTWWps p = dtw_wps_parts(l1, l2, settings);
+    {%- if "affinity" in suffix %}
+    // The penalty is subtracted from affinities, it is not expressed in the (squared) distance domain
+    p.penalty = settings->penalty;
+    {%- endif %}
 
     {%- if "affinity" not in suffix %}
     if (settings->use_pruning || settings->only_ub) {
